@@ -78,6 +78,14 @@ Proof.
   intros _. apply orb_false_iff in E. destruct E as [_ E]. apply Z.leb_gt in E. exact E.
 Qed.
 
+(* the generic code panics (checked index) only on a non-empty range: after `scores.resize(rows.len(), ..)` *)
+Lemma wrap_score_generic_panic_range p n : wrap_score_generic p = Panic n -> pa p < pb p.
+Proof.
+  unfold wrap_score_generic.
+  destruct ((pL p <? pM p) || (pb p <=? pa p)) eqn:E; [discriminate|].
+  intros _. apply orb_false_iff in E. destruct E as [_ E]. apply Z.leb_gt in E. exact E.
+Qed.
+
 Section HistoryProofs.
   Variables K pstF pstU : Z.
   Hypothesis HF : layout_ok 4 K pstF.
@@ -125,11 +133,13 @@ Section HistoryProofs.
       set (p := score_params K s pstF lo hi).
       assert (Hp : sp_nonneg p) by (apply score_params_nonneg; auto).
       destruct a.
-      + destruct (wrap_score_generic p) as [[|accs]| | |] eqn:E; simpl; try (split; [exact Hs | apply Forall_nil]).
+      + destruct (wrap_score_generic p) as [[|accs]| |n|] eqn:E; simpl; try (split; [exact Hs | apply Forall_nil]).
         * split; [unfold hwf; simpl; lia | constructor].
         * pose proof (wrap_score_generic_range _ _ E) as Hr. apply wrap_score_generic_entered in E. subst accs.
           split; [unfold hwf; simpl; pose proof (sat_sub_nonneg (hL s + 1) (hM s)); unfold p, score_params in Hr; simpl in Hr; lia|].
           constructor; [|constructor]. unfold ev_safe; simpl. constructor.
+        * pose proof (wrap_score_generic_panic_range _ _ E) as Hr.
+          split; [unfold hwf; simpl; pose proof (sat_sub_nonneg (hL s + 1) (hM s)); unfold p, score_params in Hr; simpl in Hr; lia | constructor].
       + destruct (wrap_score_sse2 true 32 p) as [[|accs]| | |] eqn:E; simpl; try (split; [exact Hs | apply Forall_nil]).
         * split; [unfold hwf; simpl; lia | constructor].
         * pose proof (score_guard_range _ _ _ _ E) as Hr.
@@ -154,6 +164,7 @@ Section HistoryProofs.
                               (mkH (hE s) (hL s) (hSR s) (hwrap s) (hM s) (hFR s) (hFI s) (hi - lo),
                                [mkEv (ext_score 1 p) balign_mat_src accs])
                           | Ok Skipped => (mkH (hE s) (hL s) (hSR s) (hwrap s) (hM s) (hFR s) (hFI s) 0, [])
+                          | Panic _ => (mkH (hE s) (hL s) (hSR s) (hwrap s) (hM s) (hFR s) (hFI s) (hi - lo), [])
                           | _ => (s, [])
                           end)) /\
                 Forall ev_safe (snd (match g with
@@ -161,14 +172,17 @@ Section HistoryProofs.
                               (mkH (hE s) (hL s) (hSR s) (hwrap s) (hM s) (hFR s) (hFI s) (hi - lo),
                                [mkEv (ext_score 1 p) balign_mat_src accs])
                           | Ok Skipped => (mkH (hE s) (hL s) (hSR s) (hwrap s) (hM s) (hFR s) (hFI s) 0, [])
+                          | Panic _ => (mkH (hE s) (hL s) (hSR s) (hwrap s) (hM s) (hFR s) (hFI s) (hi - lo), [])
                           | _ => (s, [])
                           end))).
-      { intros g Hg. destruct g as [[|accs]| | |] eqn:E; simpl; try (split; [exact Hs | apply Forall_nil]).
+      { intros g Hg. destruct g as [[|accs]| |n|] eqn:E; simpl; try (split; [exact Hs | apply Forall_nil]).
         - split; [unfold hwf; simpl; lia | constructor].
         - symmetry in Hg. pose proof (wrap_score_generic_range _ _ Hg) as Hr.
           apply wrap_score_generic_entered in Hg. subst accs.
           split; [unfold hwf; simpl; unfold p, score_params in Hr; simpl in Hr; lia|].
-          constructor; [|constructor]. unfold ev_safe; simpl. constructor. }
+          constructor; [|constructor]. unfold ev_safe; simpl. constructor.
+        - symmetry in Hg. pose proof (wrap_score_generic_panic_range _ _ Hg) as Hr.
+          split; [unfold hwf; simpl; unfold p, score_params in Hr; simpl in Hr; lia | constructor]. }
       destruct a; try (apply Hgen; reflexivity).
       destruct (wrap_score_u8_avx2 true p) as [[|accs]| | |] eqn:E; simpl; try (split; [exact Hs | apply Forall_nil]).
       + split; [unfold hwf; simpl; lia | constructor].
